@@ -15,6 +15,28 @@ pub struct StripPrefixError { x: u8 }
 pub uninterp spec fn pjoin(a: PathKey, b: PathKey) -> PathKey;
 pub uninterp spec fn pempty() -> PathKey;
 pub uninterp spec fn plast(a: PathKey) -> Option<PathKey>;
+/// `prel(full, base)`: what strip_prefix(base) leaves of `full`
+pub uninterp spec fn prel(full: PathKey, base: PathKey) -> PathKey;
+
+/// anything `Path::join` accepts (AsRef<Path> in std)
+pub trait PathLike { spec fn pkey(&self) -> PathKey; }
+impl PathLike for &Path { open spec fn pkey(&self) -> PathKey { self.key() } }
+impl PathLike for Path { open spec fn pkey(&self) -> PathKey { self.key() } }
+impl PathLike for Component { open spec fn pkey(&self) -> PathKey { self.key() } }
+
+#[verifier::external_body]
+pub struct Component { x: u8 }
+impl Component { pub uninterp spec fn key(&self) -> PathKey; }
+#[verifier::external_body]
+pub struct Components { x: u8 }
+impl Components {
+    pub uninterp spec fn of(&self) -> PathKey;
+    /// last component of the path, None for an empty path
+    #[verifier::external_body]
+    pub fn next_back(&mut self) -> (r: Option<Component>)
+        ensures (r is Some) == (plast(old(self).of()) is Some), r is Some ==> r->Some_0.key() == plast(old(self).of())->Some_0
+    { unimplemented!() }
+}
 
 pub open spec fn exists_m(ps: Map<PathKey, Node>, k: PathKey) -> bool { ps.contains_key(k) && ps[k].reach }
 pub open spec fn is_dir_m(ps: Map<PathKey, Node>, k: PathKey) -> bool { exists_m(ps, k) && ps[k].tkind == NodeKind::Dir }
@@ -29,31 +51,40 @@ pub open spec fn meta_of_node(m: Metadata, n: Node, fsm: Map<Inode, FileState>) 
 }
 /// st_ino of an inode (injective per device; we only need a function)
 pub uninterp spec fn ino_num(i: Inode) -> u64;
+pub uninterp spec fn key_of_string(s: &String) -> PathKey;
+/// textual equality of paths (`PartialEq for Path` compares components)
+impl PartialEq for Path {
+    #[verifier::external_body]
+    fn eq(&self, o: &Path) -> (r: bool) { unimplemented!() }
+}
+impl vstd::std_specs::cmp::PartialEqSpecImpl for Path {
+    open spec fn obeys_eq_spec() -> bool { true }
+    open spec fn eq_spec(&self, o: &Path) -> bool { self.key() == o.key() }
+}
 /// st_dev of the filesystem holding an inode
 pub uninterp spec fn dev_num(i: Inode) -> u64;
 
 impl Path {
     pub uninterp spec fn key(&self) -> PathKey;
 
+    /// `PathBuf::new()`: the empty path
     #[verifier::external_body]
-    pub fn new_empty() -> (r: Path) ensures r.key() == pempty() { unimplemented!() }
+    pub fn new() -> (r: Path) ensures r.key() == pempty() { unimplemented!() }
+    #[verifier::external_body]
+    pub fn from(s: &String) -> (r: Path) ensures r.key() == key_of_string(s) { unimplemented!() }
+    #[verifier::external_body]
+    pub fn components(&self) -> (r: Components) ensures r.of() == self.key() { unimplemented!() }
     #[verifier::external_body]
     pub fn to_path_buf(&self) -> (r: Path) ensures r.key() == self.key() { unimplemented!() }
     #[verifier::external_body]
     pub fn clone(&self) -> (r: Path) ensures r.key() == self.key() { unimplemented!() }
     #[verifier::external_body]
-    pub fn join(&self, p: &Path) -> (r: Path) ensures r.key() == pjoin(self.key(), p.key()) { unimplemented!() }
-    #[verifier::external_body]
-    pub fn is_empty_path(&self) -> (r: bool) ensures r == (self.key() == pempty()) { unimplemented!() }
+    pub fn join<P: PathLike>(&self, p: P) -> (r: Path) ensures r.key() == pjoin(self.key(), p.pkey()) { unimplemented!() }
     /// strip_prefix: `self == base/r` (or `r` is empty and `self == base`)
     #[verifier::external_body]
     pub fn strip_prefix<'a>(&'a self, base: &Path) -> (r: std::result::Result<&'a Path, StripPrefixError>)
-        ensures r is Ok ==> (if r->Ok_0.key() == pempty() { self.key() == base.key() } else { self.key() == pjoin(base.key(), r->Ok_0.key()) })
-    { unimplemented!() }
-    /// last component (`components().next_back()`)
-    #[verifier::external_body]
-    pub fn last_component(&self) -> (r: Option<Path>)
-        ensures (r is Some) == (plast(self.key()) is Some), r is Some ==> r->Some_0.key() == plast(self.key())->Some_0
+        ensures r is Ok ==> r->Ok_0.key() == prel(self.key(), base.key())
+            && (if r->Ok_0.key() == pempty() { self.key() == base.key() } else { self.key() == pjoin(base.key(), r->Ok_0.key()) })
     { unimplemented!() }
 
     /// stat(2).  A-probe (DESIGN §6): `exists`/`is_dir` below are assumed to answer truthfully.  std turns a stat
@@ -190,11 +221,11 @@ pub fn create_dir_all(p: &Path, Tracked(w): Tracked<&mut World>) -> (r: std::res
         match r {
             Ok(_) => {
                 &&& final(w).faults == old(w).faults && is_dir_m(final(w).paths, p.key())
-                &&& (forall|k: PathKey| old(w).paths.contains_key(k) ==> final(w).paths.contains_key(k) && final(w).paths[k] == old(w).paths[k])
+                &&& (forall|k: PathKey| #[trigger] old(w).paths.contains_key(k) ==> final(w).paths.contains_key(k) && final(w).paths[k] == old(w).paths[k])
                 &&& final(w).trace == old(w).trace.push(Event::Mkdir(p.key()))
             },
             Err(_) => final(w).faults == old(w).faults + 1 && final(w).trace == old(w).trace
-                && (forall|k: PathKey| old(w).paths.contains_key(k) ==> final(w).paths.contains_key(k) && final(w).paths[k] == old(w).paths[k]),
+                && (forall|k: PathKey| #[trigger] old(w).paths.contains_key(k) ==> final(w).paths.contains_key(k) && final(w).paths[k] == old(w).paths[k]),
         },
 { unimplemented!() }
 
